@@ -63,11 +63,25 @@ def explore(item, ctx, seed, easy_menu, clauses, quarter=True):
     from score_analysis import Scores
 
     blocks = [tuple(x) for x in item["blocks"]]
-    pos, neg, vals = ot.concretise(blocks, item["grid"], seed)
-    if item["grid"] != "int":
+    if item["grid"] == "mixed":
+        # integer-dtype positives, float-dtype negatives with non-integral values where the order type allows
+        pos, neg = [], []
+        for i, (a, c) in enumerate(blocks):
+            v = 2 * i if a else 2 * i + 0.5
+            pos += [int(v)] * a
+            neg += [float(v)] * c
+        pin, nin = np.array(pos[::-1], dtype=np.int64), np.array(neg[::-1], dtype=np.float64)
         pos, neg = [float(x) for x in pos], [float(x) for x in neg]
-    # unsorted input on purpose
-    pin, nin = pos[::-1], neg[::-1]
+    elif item["grid"] == "float32":
+        pos, neg, vals = ot.concretise(blocks, "irregular", seed)
+        pos, neg = [float(x) for x in pos], [float(x) for x in neg]
+        pin, nin = np.array(pos[::-1], dtype=np.float32), np.array(neg[::-1], dtype=np.float32)
+    else:
+        pos, neg, vals = ot.concretise(blocks, item["grid"], seed)
+        if item["grid"] != "int":
+            pos, neg = [float(x) for x in pos], [float(x) for x in neg]
+        # unsorted input on purpose
+        pin, nin = pos[::-1], neg[::-1]
     for cfg in ot.CFGS:
         sc, ec = cfg
         for ep, en in easy_menu:
